@@ -44,6 +44,11 @@ for r in meta["fns"]:
         st = text.strip()
         if not st or st.startswith("//") or "proof" in st or "assert" in st or "ghost" in st or "requires" in st or "ensures" in st or "invariant" in st or "decreases" in st or st.startswith("fn ") or st.startswith("pub fn"):
             continue
+        if os.environ.get("SPECMUT_DELETE") and st.endswith(";") and not st.startswith("let ") and not st.startswith("return") and "rt_assert" not in st and st.count("(") == st.count(")"):
+            cands.append((ln, text[:len(text) - len(text.lstrip())] + "/* deleted */", "delete statement"))
+            continue
+        if os.environ.get("SPECMUT_DELETE"):
+            continue
         for pat, rep in MUTS:
             for m in re.finditer(pat, text):
                 new = text[:m.start()] + rep + text[m.end():]
